@@ -282,6 +282,15 @@ func NewRig(ag *wire.Agent, gc *config.GensignConfig) (*Rig, error) {
 
 func (r *Rig) Close() { r.Conn.Close() }
 
+// NewRigConn builds the regular handler over a connection the caller made (and closes) itself.
+func NewRigConn(conn net.Conn, gc *config.GensignConfig) (*Rig, error) {
+	h, err := regular.NewHandler(gc, conn)
+	if err != nil {
+		return nil, err
+	}
+	return &Rig{Conn: conn, Handler: h}, nil
+}
+
 // Run calls gensign.Run and converts an escaping panic into (nil, panicText).
 func Run(param *csr.ReqParam, handlers []gensign.Handler, signer csr.Signer) (err error, escaped string) {
 	ctx, cancel := context.WithTimeout(context.Background(), 30*time.Second)
